@@ -75,10 +75,12 @@ pub fn keep(p: u32, k: u32, v: i64) -> bool {
 
 /// tree-bin flavoured cases: colliding keys in a table of at least 64 bins, adversarial orders
 pub fn gen_tree_case(rng: &mut SplitMix64, id: u64) -> Case {
-    let hasher = match rng.below(4) {
+    let hasher = match rng.below(8) {
         0 | 1 => H_ZERO,
         2 => H_SAMEBIN,
-        _ => H_HIGH,
+        3 => H_HIGH,
+        4 | 5 => H_ONES,
+        _ => H_HIGHONES,
     };
     let universe = 10 + rng.below(50) as u32;
     let cap = if rng.chance(3, 4) { 64 + rng.below(70) } else { rng.below(64) };
@@ -152,13 +154,15 @@ pub fn gen_tree_case(rng: &mut SplitMix64, id: u64) -> Case {
 }
 
 pub fn gen_case(rng: &mut SplitMix64, id: u64, long: bool) -> Case {
-    let hasher = match rng.below(16) {
+    let hasher = match rng.below(20) {
         0..=3 => H_IDENTITY,
         4..=6 => H_ZERO,
         7..=8 => H_HIGH,
         9..=11 => H_SAMEBIN,
         12..=13 => H_MIX,
-        _ => H_AHASH,
+        14..=15 => H_AHASH,
+        16..=17 => H_ONES,
+        _ => H_HIGHONES,
     };
     let cap = match rng.below(10) {
         0 => 0,
